@@ -481,6 +481,9 @@ pub fn scenario_json(sc: &Scenario) -> serde_json::Value {
 pub fn run(cfg: &RunCfg) -> Ctx {
     let mut all = Ctx::new();
     all.merge(par_cases(cfg, "shutdown", cfg.n(1200, 16 * 2500), || (), |_, rng, ctx, _| case(rng, ctx)));
+    // a TLS server, several peers, one transport connection that never begins its handshake
+    all.merge(par_cases(cfg, "tls-shutdown", cfg.n(40, 16 * 300), || (), |_, rng, ctx, _| crate::props::c15::peers_case(rng, ctx, true)));
+    all.floor("peers.shutdown_with_silent_connection", 10);
     for k in ["phase.pre-headers", "phase.mid-stream", "phase.done", "phase.not-started", "scen.no_call_in_flight", "scen.post_signal_call", "scen.signal_with_accept", "scen.kept_idle_clients", "scen.server_timeout_configured", "scen.max_connection_age_configured", "scen.rare_options_set", "scen.accept_errors", "scen.listener_ends_by_itself", "observed.accepted_calls_completed"] {
         all.floor(k, 3);
     }
